@@ -189,7 +189,7 @@ def oracle(c, o):
             chain = []
             j = nodes[int(i)]['src']
             while True:
-                k = nodes[j]['k']
+                k = G.kind(nodes[j])
                 chain.append(k)
                 if k in ('in', 'conv', 'lin'):
                     break
